@@ -380,8 +380,10 @@ where
 					self.doctest_mode,
 				);
 				match res {
-					Ok(s) => return Ok(s.unwrap()),
-					Err(_) => return Ok(ret_slate),
+					// (nothing was sent - the destination is not a slatepack address, or sending
+					// is switched off: the reply goes back to the caller)
+					Ok(Some(s)) => return Ok(s),
+					Ok(None) | Err(_) => return Ok(ret_slate),
 				}
 			}
 			None => Ok(ret_slate),
